@@ -25,6 +25,11 @@ INVS = {
     "C07": ["C07_NotBefore", "C07_NeverStartedNeverRuns", "C07_NewestWins", "C07_NewestRuns"],
     "C08": ["C08_NoRunAfterFailedDep", "C08_FailFast", "C08_FailFastNoNewTask", "C08_Continue", "C08_VerdictSound",
             "C08_NoRunningAfterCompleted"],
+    "C10": ["C10_AllTerminal", "C10_NoGhosts", "C10_SameSet", "C10_FinishedFaithful"],
+    "C11": ["C11_AllTerminal", "C11_StoreMatches", "C11_RejectAfter", "C11_GracefulRunsOut", "C11_ForcedCancels",
+            "C11_PersistWithinInterval"],
+    "C12": ["C12_KeepsUnfinished", "C12_NoSettingsNoRemoval", "C12_NewestFirstClosure", "C12_CountBound", "C12_PeriodBound",
+            "C12_UndefinedPurged", "C12_ThreeViewsAgree"],
     "C15": ["C15_SchedulableIffAccepted", "C15_RunningIffExecuting", "C15_ListedFromReturn", "C15_NewestFirst",
             "C15_TimesOrdered", "C15_TaskOrder"],
     "C16": ["C16_SnapshotRuns", "C16_ReloadIsInert", "C16_AllTerminalAtDrain"],
@@ -32,12 +37,18 @@ INVS = {
 
 
 def build_driver(dst):
+    """Builds the harness test binary against the current working tree of REPO (module replace)."""
     out = os.path.join(dst, "driver.test")
-    h = os.path.join(VERIF, "harness")
-    shutil.copy(os.path.join(REPO, "go.sum"), os.path.join(h, "go.sum"))
-    p = run(["go1.26", "test", "-c", "-tags", "verif", "-o", out, "./driver"], cwd=h, env=GOENV, timeout=600)
-    if p.returncode != 0:
-        raise Infra("harness build failed:\n" + p.stdout[-4000:])
+    with scratch("verif-build-") as b:
+        h = os.path.join(b, "harness")
+        shutil.copytree(os.path.join(VERIF, "harness"), h)
+        shutil.copy(os.path.join(REPO, "go.sum"), os.path.join(h, "go.sum"))
+        p = run(["go1.26", "mod", "edit", "-replace", "github.com/Flowpack/prunner=" + REPO], cwd=h, env=GOENV, timeout=120)
+        if p.returncode != 0:
+            raise Infra("go mod edit failed:\n" + p.stdout[-2000:])
+        p = run(["go1.26", "test", "-c", "-tags", "verif", "-o", out, "./driver"], cwd=h, env=GOENV, timeout=600)
+        if p.returncode != 0:
+            raise Infra("harness build failed (does /repo still compile?):\n" + p.stdout[-4000:])
     return out
 
 
@@ -50,6 +61,7 @@ def convert_script(obj, sid, src):
     vers = obj["vers"]
     for v in vers:
         v["delay"] = v["delay"] * TICK_MS
+        v["retPeriod"] = v["retPeriod"] * TICK_MS
     init = [0] * np_
     steps = []
     for s in obj["steps"]:
@@ -276,8 +288,10 @@ def model_check(work, cfgs, workers=8, timeout=1500):
 # the cached engine run
 
 TIERS = {
-    "quick": {"sim": [("Sim_Core.tla", "Sim_Core.cfg", 480, 200)], "mc": [("MC_Core.tla", "MC_Core.cfg")]},
-    "thorough": {"sim": [("Sim_Core.tla", "Sim_Core.cfg", 6000, 300)], "mc": [("MC_Core.tla", "MC_Core.cfg"), ("MC_Core.tla", "MC_Core3.cfg")]},
+    "quick": {"sim": [("Sim_Core.tla", "Sim_Core.cfg", 480, 200), ("Sim_Life.tla", "Sim_Life.cfg", 320, 200)],
+              "mc": [("MC_Core.tla", "MC_Core.cfg")]},
+    "thorough": {"sim": [("Sim_Core.tla", "Sim_Core.cfg", 6000, 300), ("Sim_Life.tla", "Sim_Life.cfg", 4000, 300)],
+                 "mc": [("MC_Core.tla", "MC_Core.cfg"), ("MC_Core.tla", "MC_Core3.cfg"), ("MC_Life.tla", "MC_Life.cfg")]},
 }
 
 
@@ -299,7 +313,9 @@ def engine(tier):
             for module, cfg, num, depth in TIERS[tier]["sim"]:
                 if not os.path.exists(os.path.join(work, cfg)):
                     continue
-                scripts += simulate_scripts(work, cfg, module, num, depth, seed())
+                scripts += simulate_scripts(work, cfg, module, num, depth, seed(), tag=cfg[4:-4].lower())
+            for i, sc in enumerate(scripts):
+                sc["seed"] = seed() * 1000 + i
             via_mix(scripts, seed())
             t1 = time.time()
             traces, crashes = execute(driver, scripts, d)
